@@ -84,6 +84,7 @@ type Env struct {
 	Sys      *systemcontroller.DefaultController
 	Listener *RecListener
 	Ctx      context.Context
+	routerHolder
 }
 
 type Options struct {
